@@ -1,9 +1,11 @@
 // C46: bfe_proxy.Conn (PROXY protocol v1/v2 header detection and parsing) vs model ProxyProto.v.
-// input : [limit [chunk ...] ora_src ora_dst]
+// input : [limit [chunk ...] ora_src ora_dst tmo]
 //   limit    maxProxyHeaderBytes passed to NewConn (0 = default 2048)
 //   chunks   the byte stream, delivered one chunk per Read of the underlying connection, then EOF
 //   ora_src/ora_dst  net.ParseIP oracle (16 bytes, or empty = nil) for tokens 2 and 3 of a v1 line
 //                    when the token contains ':' (IPv6 text parsing is not modelled), else empty
+//   tmo      0: after the last chunk the peer closes (EOF); 1: the peer stays silent, i.e. while a read deadline is
+//            armed (header phase) the Read fails with a timeout error; once the deadline is cleared it reports EOF
 // output: [src dst data err closed]
 //   src/dst  [] = socket address kept / no virtual address ; [ip port] = address taken from the header
 //   data     every byte the application could read ; err 0 = EOF, 1 = read on closed socket, 2 = header error
@@ -34,7 +36,15 @@ func (a fakeAddr) String() string  { return string(a) }
 type sconn struct {
 	chunks [][]byte
 	closed bool
+	tmo    bool
+	armed  bool // a non-zero read deadline is set
 }
+
+type tmoErr struct{}
+
+func (tmoErr) Error() string   { return "i/o timeout" }
+func (tmoErr) Timeout() bool   { return true }
+func (tmoErr) Temporary() bool { return true }
 
 func (c *sconn) Read(p []byte) (int, error) {
 	if c.closed {
@@ -44,6 +54,9 @@ func (c *sconn) Read(p []byte) (int, error) {
 		c.chunks = c.chunks[1:]
 	}
 	if len(c.chunks) == 0 {
+		if c.tmo && c.armed {
+			return 0, tmoErr{}
+		}
 		return 0, io.EOF
 	}
 	n := copy(p, c.chunks[0])
@@ -54,8 +67,8 @@ func (c *sconn) Write(p []byte) (int, error)        { return len(p), nil }
 func (c *sconn) Close() error                       { c.closed = true; return nil }
 func (c *sconn) LocalAddr() net.Addr                { return fakeAddr("local") }
 func (c *sconn) RemoteAddr() net.Addr               { return fakeAddr("peer") }
-func (c *sconn) SetDeadline(t time.Time) error      { return nil }
-func (c *sconn) SetReadDeadline(t time.Time) error  { return nil }
+func (c *sconn) SetDeadline(t time.Time) error      { c.armed = !t.IsZero(); return nil }
+func (c *sconn) SetReadDeadline(t time.Time) error  { c.armed = !t.IsZero(); return nil }
 func (c *sconn) SetWriteDeadline(t time.Time) error { return nil }
 
 func oracle(stream []byte) (src, dst []byte) {
@@ -110,10 +123,10 @@ func impl(in hv.Val) hv.Val {
 		stream = append(stream, b...)
 	}
 	os, od := oracle(stream)
-	if !bytes.Equal(os, hv.AsBytes(l[2])) || !bytes.Equal(od, hv.AsBytes(l[3])) || len(stream) > 4000 || limit < 0 || limit > 4000 {
+	if !bytes.Equal(os, hv.AsBytes(l[2])) || !bytes.Equal(od, hv.AsBytes(l[3])) || len(stream) > 20000 || limit < 0 || limit > 4000 {
 		return hv.Err(8) // not a well-formed test input (oracle columns do not belong to the stream)
 	}
-	sc := &sconn{chunks: chunks}
+	sc := &sconn{chunks: chunks, tmo: len(l) > 4 && hv.AsInt(l[4]) != 0}
 	pc := bfe_proxy.NewConn(sc, time.Hour, limit)
 	var src, dst hv.Val
 	if ra := pc.RemoteAddr(); ra == sc.RemoteAddr() {
@@ -430,13 +443,96 @@ func genNone(r *hv.Rng) (string, []byte) {
 	return "none-random", b
 }
 
+// streams around / beyond the default header limit (2048) and the 4096-byte buffer
+func longLen(r *hv.Rng) int {
+	switch r.Intn(8) {
+	case 0:
+		return 2048 + r.Range(-2, 2)
+	case 1:
+		return 4096 + r.Range(-2, 2)
+	case 2:
+		return r.Range(5000, 9000)
+	}
+	return r.Range(2040, 4200)
+}
+
+func genLong(r *hv.Rng) (string, []byte) {
+	switch r.Intn(7) {
+	case 0: // no header, longer than the header limit
+		b := r.Bytes(longLen(r))
+		b[0] = "GHD\x16"[r.Intn(4)]
+		return "long-none", b
+	case 1: // no header, first byte 'P' / CR
+		b := r.Bytes(longLen(r))
+		copy(b, "POST /upload HTTP/1.1\r\n")
+		if r.Chance(1, 3) {
+			copy(b, "\r\n\r\n\x00\r\nQUIX")
+		}
+		return "long-none-sig1st", b
+	case 2: // header + long payload
+		c, h := genV2(r)
+		return "long-" + c, append(h, r.Bytes(longLen(r))...)
+	case 3:
+		c, h := genV1(r)
+		return "long-" + c, append(h, r.Bytes(longLen(r))...)
+	case 4: // v1 line without LF up to / beyond the limit
+		n := 2048 + r.Range(-15, 5)
+		b := []byte("PROXY TCP4 ")
+		for len(b) < n {
+			b = append(b, 'a')
+		}
+		if r.Bool() {
+			b = append(b, "\r\nrest"...)
+		}
+		return "long-v1-nolf", b
+	case 5: // v2 header whose declared length is around limit-16 (2032) or beyond the buffer
+		ln := []int{2031, 2032, 2033, 3000, 4080, 4081, 4096, 4097, 65535}[r.Intn(9)]
+		h := append(append([]byte(nil), sigV2...), 0x21, 0x11, byte(ln>>8), byte(ln))
+		if r.Chance(1, 3) {
+			h[12] = 0x20
+		}
+		n := ln
+		if n > 5000 {
+			n = 5000
+		}
+		if r.Chance(1, 4) {
+			n -= 1 + r.Intn(3)
+		}
+		h = append(h, r.Bytes(n)...)
+		return "long-v2-biglen", append(h, payload(r)...)
+	default: // v1 line padded with extra tokens to sit exactly at the limit boundary
+		line := "PROXY TCP4 1.2.3.4 5.6.7.8 80 443 "
+		n := 2048 + r.Range(-2, 2)
+		for len(line) < n-2 {
+			line += "x"
+		}
+		return "long-v1-atlimit", append([]byte(line+"\r\n"), payload(r)...)
+	}
+}
+
+// length of the header part of a conformant-looking stream (0 if unknown)
+func hdrLen(s []byte) int {
+	if bytes.HasPrefix(s, []byte("PROXY")) {
+		if k := bytes.IndexByte(s, '\n'); k >= 0 {
+			return k + 1
+		}
+		return 0
+	}
+	if bytes.HasPrefix(s, sigV2) && len(s) >= 16 {
+		return 16 + int(s[14])<<8 + int(s[15])
+	}
+	return 0
+}
+
 func gen(r *hv.Rng, i int, tier string) (string, hv.Val) {
 	var class string
 	var s []byte
-	switch k := r.Intn(10); {
-	case k < 4:
+	switch k := r.Intn(40); {
+	case k < 2:
+		class, s = genLong(r)
+	case k < 17:
 		class, s = genV2(r)
-	case k < 8:
+	case k < 33:
 		class, s = genV1(r)
 	default:
 		class, s = genNone(r)
@@ -445,6 +541,9 @@ func gen(r *hv.Rng, i int, tier string) (string, hv.Val) {
 	if r.Chance(1, 8) {
 		limit = r.Range(1, 120)
 		class += "-lim"
+	} else if hl := hdrLen(s); hl > 0 && hl <= 3990 && r.Chance(1, 8) { // limit exactly at the header size, one less, one more
+		limit = hl + r.Range(-1, 1)
+		class += "-limexact"
 	}
 	var cs hv.L
 	for _, c := range split(r, s) {
@@ -454,7 +553,12 @@ func gen(r *hv.Rng, i int, tier string) (string, hv.Val) {
 		cs = hv.L{}
 	}
 	os, od := oracle(s)
-	return class, hv.L{hv.I(limit), cs, hv.B(os), hv.B(od)}
+	tmo := 0
+	if r.Chance(1, 5) {
+		tmo = 1
+		class += "-tmo"
+	}
+	return class, hv.L{hv.I(limit), cs, hv.B(os), hv.B(od), hv.I(tmo)}
 }
 
 func main() {
